@@ -1,0 +1,22 @@
+//go:build verif
+
+// Contracts for the lvc verifier (comment-only file, compiled only with -tags verif).
+
+package ckks
+
+//@ owned Evaluator evaluatorBuffers Evaluator
+//@ frame Evaluator.* inputs=auto
+
+// ---- copy constructors (property C10) ----
+//@ copy Evaluator.ShallowCopy
+//@   copied Encoder Evaluator
+//@   fresh evaluatorBuffers
+
+//@ copy Evaluator.WithKey
+//@   shared Encoder evaluatorBuffers
+//@   copied Evaluator
+
+//@ copy Encoder.ShallowCopy
+//@   shared parameters prec m rotGroup roots
+//@   fresh bigintCoeffs qHalf buffCmplx
+//@   copied buff
